@@ -2,6 +2,7 @@ package main
 
 import (
 	"fmt"
+	"go/constant"
 	"go/types"
 	"strconv"
 	"strings"
@@ -87,11 +88,49 @@ func ifaceName(t types.Type) string {
 	return types.TypeString(types.Unalias(t), nil)
 }
 
-func (x *Exec) callFunc(st *State, fr *frame, site ssa.Instruction, fn *ssa.Function, args []Val, bind []Val, k func(st *State, v Val)) {
+func (x *Exec) callFunc(st *State, fr *frame, site ssa.Instruction, fn *ssa.Function, args []Val, bind []Val, k0 func(st *State, v Val)) {
 	s := x.s
 	name := fn.String()
+	k := k0
+	if x.con != nil {
+		for _, c := range x.con.Captures {
+			if c.Callee != name {
+				continue
+			}
+			if _, done := st.caps[c.Name]; done {
+				continue
+			}
+			if idx, err := strconv.Atoi(c.What); err == nil {
+				if idx < len(args) {
+					st.caps[c.Name] = args[idx]
+				}
+				continue
+			}
+			cc := c
+			prev := k
+			k = func(st *State, v Val) {
+				if _, done := st.caps[cc.Name]; !done && v != nil {
+					cv := v
+					if strings.HasPrefix(cc.What, "result[") {
+						i, _ := strconv.Atoi(strings.TrimSuffix(cc.What[7:], "]"))
+						if r, ok := v.(Rec); ok && i < len(r.F) {
+							cv = r.F[i]
+						}
+					}
+					st.caps[cc.Name] = cv
+				}
+				prev(st, v)
+			}
+		}
+	}
 	if x.ormStatic(st, fr, site, fn, args, k) {
 		return
+	}
+	if name == "fmt.Sprintf" {
+		if v, ok := x.sprintf(st, site, args); ok {
+			k(st, v)
+			return
+		}
 	}
 	con := s.Spec.Contracts[name]
 	wrapK := func(st *State, res []Val) {
@@ -350,6 +389,10 @@ func (x *Exec) applyContract(st *State, fr *frame, con *Contract, name string, s
 			subsetf("callee %s has ghost parameter %s that the caller does not provide", name, g.Name)
 		}
 	}
+	// captured values of the callee are some (unknown) byte slices for the caller
+	for _, cp := range con.Captures {
+		env.vars[cp.Name] = s.symVal(s.fresh("callee.capture:"+cp.Name), types.NewSlice(types.Typ[types.Uint8]))
+	}
 	// ghost variables of the callee: their final values are some (unknown) values for the caller
 	for _, gv := range con.GhostVars {
 		env.vars[gv.Name] = Sc{s.declare(s.fresh("callee.ghostvar:"+gv.Name), gv.Sort), gv.Sort}
@@ -570,4 +613,75 @@ func (sp *Spec) expandModifies(ms []string) map[string]bool {
 		}
 	}
 	return out
+}
+
+// sprintf: fmt.Sprintf with a literal format that consists of literal text and %s verbs applied
+// to string arguments is exactly the concatenation; other uses stay opaque (contract `pure`).
+func (x *Exec) sprintf(st *State, site ssa.Instruction, args []Val) (Val, bool) {
+	s := x.s
+	call, ok := site.(*ssa.Call)
+	if !ok || len(call.Call.Args) < 1 {
+		return nil, false
+	}
+	fc, ok := call.Call.Args[0].(*ssa.Const)
+	if !ok || fc.Value == nil {
+		return nil, false
+	}
+	format := constant.StringVal(fc.Value)
+	var elems []Val
+	if len(args) > 1 {
+		sl, ok := args[1].(Slice)
+		if !ok {
+			return nil, false
+		}
+		n, err := strconv.Atoi(sl.Len)
+		if err != nil {
+			return nil, false
+		}
+		for i := 0; i < n; i++ {
+			elems = append(elems, s.arrRead(st, sl.Arr, addTerm(sl.Off, strconv.Itoa(i))))
+		}
+	}
+	var parts []string
+	ai := 0
+	lit := ""
+	for i := 0; i < len(format); i++ {
+		if format[i] != '%' {
+			lit += string(format[i])
+			continue
+		}
+		if i+1 >= len(format) || format[i+1] != 's' || ai >= len(elems) {
+			return nil, false
+		}
+		iv, ok := elems[ai].(Iface)
+		if !ok || iv.Dyn == nil {
+			return nil, false
+		}
+		b, okb := iv.Dyn.Underlying().(*types.Basic)
+		sc, oks := iv.V.(Sc)
+		if !okb || b.Info()&types.IsString == 0 || !oks {
+			return nil, false
+		}
+		if lit != "" {
+			parts = append(parts, s.strCode(lit))
+			lit = ""
+		}
+		parts = append(parts, sc.T)
+		ai++
+		i++
+	}
+	if ai != len(elems) {
+		return nil, false
+	}
+	if lit != "" {
+		parts = append(parts, s.strCode(lit))
+	}
+	if len(parts) == 0 {
+		return scInt(s.strCode("")), true
+	}
+	t := parts[len(parts)-1]
+	for i := len(parts) - 2; i >= 0; i-- {
+		t = "(strcat " + parts[i] + " " + t + ")"
+	}
+	return scInt(t), true
 }
